@@ -868,6 +868,7 @@ func TestC24(t *testing.T) {
 		ID: "C24",
 		Rule: "A real incoming route.Router (HTTP + gRPC listeners on loopback) with a real config.Config loaded by config.NewConfig from generated YAML, a pass-through collector double, a real DirectTransmission and a fake Honeycomb that records X-Honeycomb-Team per batch and answers /1/auth with key ids. " +
 			"Part 1 (replays/C24/table-*.json, every run): the full table SendKeyMode(6) x AcceptOnlyListedKeys(2) x SendKey{set,unset} x client key class{blank, =SendKey, listed, listed by key id, unlisted} x 7 endpoints. " +
+			"Part 1b (replays/C24/history-*.json, every run): lookup-failure histories: for 3 configurations x 8 ways /1/auth can fail x 7 endpoints, a key authorised through its key id is first served while the lookup fails and then again (same and another endpoint) while it is healthy. " +
 			"Part 2: rapid-generated configurations (key strings of every documented shape, overlapping lists, near-miss keys and ids) with 1-10 requests over all endpoints, header variants and encodings. " +
 			"Oracle: acceptance and upstream key computed from config.md's SendKeyMode text on the key the client sent, independent of IsAccepted/GetReplaceKey. " +
 			"Non-trivial: the case has at least one request that must be rejected or whose key must be replaced. Distinct = distinct case JSON.",
@@ -877,7 +878,8 @@ func TestC24(t *testing.T) {
 			"unlisted mode + blank client key is not specified by config.md: only 'nothing leaves or SendKey' is asserted",
 			"client key blank and no replacement prescribed: only 'nothing leaves Refinery' is asserted, the response is a don't-care",
 			"the collector is a pass-through double that forwards each span to the upstream transmission with the key the router put on it (the real collector does not touch Event.APIKey)",
-			"'' is never listed in ReceiveKeys; every non-legacy key is known to /1/auth (environment lookup failures are C23's subject)",
+			"'' is never listed in ReceiveKeys; every non-legacy key is known to /1/auth",
+			"what refinery answers WHILE the lookup service fails is not judged here (C23); a request served while /1/auth is healthy must be authorised and re-keyed by the tables even if an earlier lookup of the same key failed (only successful lookups may be cached)",
 		},
 		Gen:  genC24,
 		Exec: execC24,
